@@ -78,6 +78,16 @@ Fixpoint adm_hist (q : op -> Prop) (m : machine) (h : list op) : Prop :=
   | o :: h' => adm m o /\ q o /\ adm_hist q (step m o).1 h'
   end.
 
+(** ** caught panics (C10): any operation, with or without an armed fuse *)
+Definition strip_fuse (o : op) : op := match o with OFuse _ o' => o' | _ => o end.
+Definition adm_fuse (m : machine) (o : op) : Prop :=
+  closures_ok o /\ limits_ok m (strip_fuse o).
+Fixpoint adm_fuse_hist (m : machine) (h : list op) : Prop :=
+  match h with
+  | [] => True
+  | o :: h' => adm_fuse m o /\ adm_fuse_hist (step m o).1 h'
+  end.
+
 (** ** pinned statements *)
 
 (** C04: no fault, tables stay consistent — also across leaked iter_mut guards *)
@@ -89,6 +99,19 @@ Definition step_safe_stmt : Prop := keq_ok keq hash -> ord_ok ple ->
 Definition step_good_stmt : Prop := keq_ok keq hash -> ord_ok ple ->
   forall m o, good m -> adm m o -> no_forget o ->
     good (step m o).1 /\ is_fault (step m o).2 = false.
+
+(** C10: whichever user callback of whichever operation panics (the k-th
+    one, for every k), and whatever is done afterwards, every queue stays
+    well-formed - the state every unchecked access relies on - and no
+    operation faults (no out-of-range unchecked access, no panic of the
+    crate's own, no non-termination).  Order is not promised after a caught
+    panic, safety is. *)
+Definition step_unwind_safe_stmt : Prop := keq_ok keq hash -> ord_ok ple ->
+  forall m o, safe m -> adm_fuse m o ->
+    safe (step m o).1 /\ is_fault (step m o).2 = false.
+Definition run_unwind_safe_stmt : Prop := keq_ok keq hash -> ord_ok ple ->
+  forall h m, safe m -> adm_fuse_hist m h ->
+    Forall (fun x : out * nat * machine => is_fault x.1.1 = false /\ safe x.2) (run m h).
 
 Definition run_safe_stmt : Prop := keq_ok keq hash -> ord_ok ple ->
   forall h m, safe m -> adm_hist (fun _ => True) m h ->
